@@ -1,4 +1,5 @@
 """C13 — a table's reported format string reproduces the table (ak/ppobj.py: to_fmt_str, format parser, setter)."""
+import re
 from harness.core import enc_str, dec_str
 from harness import c12
 
@@ -6,8 +7,8 @@ PROPERTY = "C13"
 READY = True
 STATEFUL = True
 THEOREMS = ["C13.parse_print", "C13.int_of_str", "C13.same_rendering_setter", "C13.same_rendering_ctor",
-            "C13.format_after_print", "C13.empty_noop", "C13.fieldless", "C13.reachable_invariants",
-            "C13.fieldless_literal_fails"]
+            "C13.format_after_print", "C13.empty_noop", "C13.reformat_own_columns", "C13.reformat_own_columns_pick",
+            "C13.fieldless", "C13.reachable_invariants", "C13.fieldless_literal_fails"]
 
 
 def translate(repo):
@@ -63,6 +64,12 @@ class _Live:
                     return "err NoTable"
                 self.table.fmt = dec_str(args[0]) if op == "set" else self.last
                 return "ok"
+            if op == "setsub":
+                # re-format with some of the table's own column descriptions, as reported now; no limits part
+                if args[0] not in ("v", "p") or len(args) < 2:
+                    return "bad-op"
+                self.table.fmt = sub_fmt(str(self.table.fmt), [int(a) for a in args[1:]], args[0] == "p")
+                return "ok"
             if op == "sib":
                 # a second table from the SAME format object, with other records
                 records2, kw2 = c12.dec_rest(args)
@@ -97,6 +104,17 @@ class _Live:
             return "bad-op"
         except Exception as e:
             return "err " + type(e).__name__
+
+
+def sub_fmt(s, idxs, plain):
+    """a columns-only format made of the column descriptions of the reported format `s` standing at the places
+    `idxs` (modulo their number), verbatim or - `plain` - without the '(width)' suffix of a printed ranged column"""
+    cols = s.split(";")[0]
+    parts = cols.split(",") if cols else []
+    chosen = [parts[i % len(parts)] for i in idxs] if parts else []
+    if plain:
+        chosen = [p[:p.rindex(":")] + re.sub(r"\(\d+\)$", "", p[p.rindex(":"):]) if ":" in p else p for p in chosen]
+    return ",".join(chosen)
 
 
 def enc_direct(desc):
@@ -342,6 +360,12 @@ def gen_history(rng, desc):
                    ["rmcols " + " ".join(enc_str(g) for g in gone), "str"]
         elif k < 0.80:
             ops.append("set " + enc_str(rng.choice(["", ";", ";;"])))
+        elif k < 0.85 and all(name_expressible(n) for n in names):
+            # re-format with some of the table's OWN column descriptions as reported now (dropped / moved / repeated;
+            # verbatim or without the '(width)' suffix), no limits part; in any state: fresh, printed, re-formatted
+            ops += rng.choice([[], ["print"], ["print", "str"], ["str"]]) + \
+                   ["setsub %s %s" % (rng.choice("vp"), " ".join(str(rng.randint(0, 5)) for _ in range(rng.randint(1, 4)))),
+                    "str"]
         elif k < 0.93:
             # another well-formed format for the same fields
             cols = None
@@ -407,6 +431,51 @@ def gen_setlim_printed_case(rng):
     return _case(desc, ops, "set_limits-after-print")
 
 
+def gen_resub_case(rng):
+    """a table with limits that hide records and (mostly) a break-by column is printed, then re-formatted with a
+    columns-only format made of its own reported column descriptions - one dropped (often the break-by column: other
+    records come into view), or moved, or repeated - then read back through both routes. Whatever the first print
+    negotiated must not outlive the new format."""
+    nf = rng.randint(2, 4)
+    fields = [{"name": nm, "enum": None, "title": None} for nm in rng.sample(["id", "grp", "name", "x y", "qty!=0"], nf)]
+    n = rng.choice([5, 6, 7, 8, 10, 12])
+    wide, wcol = rng.randrange(n), rng.randrange(nf)
+    grp = rng.choice([1, 2, 2, 3])
+    records = [[(i // grp if k == 1 else ("w" * rng.randint(6, 14) if (i == wide and k == wcol) else
+                                          (i if k == 0 else "v" * (1 + i % 3)))) for k in range(nf)] for i in range(n)]
+    cols = []
+    for k, fl in enumerate(fields):
+        w = rng.choice([2, 3, 6])
+        cols.append({"f": fl["name"], "mod": None, "brk": k == 1 and rng.random() < 0.8,
+                     "w": rng.choice([[w, w], None, None, [1, 30], [1, 20], [0, 9]])})
+    if rng.random() < 0.3:
+        rng.shuffle(cols)
+    lim0 = rng.choice([[1, 1], [2, 2], [2, 1], [1, 3], [3, 2], [0, 2], [rng.randint(0, 4), rng.randint(0, 4)], None])
+    desc = {"valid": True, "fields": fields, "records": records, "cols": cols, "header": None, "footer": None, "skip": None,
+            "fmt_limits": lim0, "limits": None}
+    desc["fmt"] = c12.fmt_str(rng, cols, lim0, plain=True)
+    idxs = list(range(nf))
+    how = rng.choice(["drop-break", "drop-break", "drop", "move", "repeat"])
+    if how == "drop-break":
+        idxs = [i for i, c in enumerate(cols) if not c["brk"]]
+    elif how == "drop":
+        idxs.pop(rng.randrange(nf))
+    elif how == "repeat":
+        idxs.append(rng.randrange(nf))
+    if how == "move" or rng.random() < 0.3:
+        rng.shuffle(idxs)
+    ops = rng.choice([["print"], ["print"], ["print", "str"], ["str"], []])
+    if rng.random() < 0.15:
+        # the other half of a format alone: no columns section, new limits (other records come into view as well)
+        how = "limits-only"
+        ops.append("set " + enc_str(rng.choice(["", "*"]) * (rng.random() < 0.2) + ";" + rng.choice(
+            ["*", "9:9", "%d:%d" % (rng.randint(0, 5), rng.randint(0, 5)), "0:%d" % n, "%d:0" % n])))
+    else:
+        ops.append("setsub %s %s" % (rng.choice("vp"), " ".join(map(str, idxs))))
+    ops += ["str", rng.choice(["ctorlast", "setlast"]), "print", "str"]
+    return _case(desc, ops, "own-columns-reformat:" + how)
+
+
 def _case(desc, ops, kind, direct=False):
     if direct:
         # the format is built from ReprColumn objects: the first string that meets the parser is str(table.fmt)
@@ -459,6 +528,8 @@ def gen_cases(rng, tier):
         yield gen_default_limits_case(rng)
     for _ in range(200 if quick else 4000):
         yield gen_setlim_printed_case(rng)
+    for _ in range(250 if quick else 5000):
+        yield gen_resub_case(rng)
     for s in gen_parse_lines(rng, 1500 if quick else 60000):
         yield {"lines": ["parse " + enc_str(s)], "meta": {"kind": "parse"}}
     if not quick:
@@ -531,7 +602,10 @@ def tags(case, replies):
             yield "history:set_limits" + ("-after-print" if printed else "")
         if op == "rmcols":
             yield "history:columns-removed" + ("-after-print" if printed else "")
-        if op in ("setlast", "ctorlast", "set", "ctor", "new", "newobj", "ctorobj") and rep == "ok":
+        if op == "setsub" and rep == "ok":
+            yield "history:own-columns-reformat" + ("-after-print" if printed else "") + \
+                  (":plain" if line.split()[1] == "p" else ":verbatim")
+        if op in ("setlast", "ctorlast", "set", "setsub", "ctor", "new", "newobj", "ctorobj") and rep == "ok":
             printed = False
         if op == "swap" and rep == "ok":
             yield "sibling:swapped-in"
@@ -541,9 +615,14 @@ def tags(case, replies):
 RULE = ("histories over C12's tables (field names the serialised form can express; user-written field types with "
         "free-text modifiers incl. '/'): new - or newobj: the format built from ReprColumn objects, no parser - then 2-8 of str / print / "
         "str+setlast / str+ctorlast / [str, print,] rmcols (table.remove_columns), str / ctorobj (fmt_obj=table.fmt) / sib+swap (a second table from the same format "
-        "object with other records, printed and read in either order) / set ''|';'|';;' / set <another well-formed format> / set <malformed>, always "
+        "object with other records, printed and read in either order) / set ''|';'|';;' / set <another well-formed format> / set <malformed> / "
+        "[print, [str,]] setsub (table.fmt = a columns-only string made of the table's own reported column descriptions: "
+        "dropped, moved, repeated; verbatim or without '(width)'), str; always "
         "ending with str, print, str, setlast|ctorlast, print, str; tables of 45-80 records with limits at and around "
-        "the code's own default pair (taken from the source) fed back through both routes; plus `parse <fmt>` lines (fuzzed and edited format "
+        "the code's own default pair (taken from the source) fed back through both routes; set_limits on printed tables; "
+        "tables with limits that hide records and a break-by column, printed, then re-formatted with their own column "
+        "descriptions minus one (mostly the break-by column) / reordered / one repeated - or with new limits and no "
+        "columns section -, then read back through both routes; plus `parse <fmt>` lines (fuzzed and edited format "
         "strings; the parser's internal record is compared as a diagnostic). non-trivial = at least one later step answered "
         "with data; distinct by protocol text")
 TRUSTED = list(c12.TRUSTED)
@@ -558,6 +637,11 @@ LEVEL_TEXT = ("Kernel-checked on the model, for tables built with explicit expre
               "histories in Reach: construction from a string / from column objects / from another reachable table's "
               "format object (siblings), printing, table.fmt = <any string>, re-construction from any string, and - on "
               "table.fmt.set_limits(...) and table.remove_columns(...) in any state. "
+              "reformat_own_columns(+_pick): table.fmt = <some of the column descriptions str(table.fmt) reports now, "
+              "dropped / moved / repeated, verbatim or without '(width)', no limits part> is accepted in every reachable "
+              "state (after a print, with limits and break-by columns too); the new columns are the picked ones and none "
+              "has a negotiated width (a description repeated word for word inherits nothing), fields and limits stay, "
+              "the state is in Reach - so the theorems below hold for it. "
               "parse_print: the printed string is accepted and reads back as the same columns (name, modifier, break-by, "
               "bounds; the '(width)' suffix ignored) and as the same limits when they are in the string - they are left "
               "out when the last printing skipped nothing. same_rendering_setter: same lines, same fields and columns, "
@@ -570,8 +654,10 @@ LEVEL_TEXT = ("Kernel-checked on the model, for tables built with explicit expre
               "call without fields= fails at print (fieldless_literal_fails, known finding fieldless_ctor_route). "
               "Model = code rests on the differential run of histories.")
 LEVEL_NOTE = ("Trusted: Lean kernel, translator (constants shared with C12), adapter/wire in harness/c12.py and c13.py, "
-              "sampled correspondence. Tie and oracle only (outside Reach): the fmt_obj route inside histories "
-              "(ctorobj). Tie only, not judged by the oracle: records.append after a print (a change of the data, not of "
+              "sampled correspondence. The fmt_obj route (ctorobj, sib: PPTable(records, fmt_obj=table.fmt)) is inside Reach "
+              "(Reach.fromObj), so the invariants and the theorems about the NEW table's own str/set/ctor hold; that the "
+              "new table prints the same lines as the one whose format object it took is stated by the oracle and the tie "
+              "only (no theorem compares the two). Tie only, not judged by the oracle: records.append after a print (a change of the data, not of "
               "the format: the widths stay as fitted to the rows visible before). Not covered: negative limits on the "
               "constructor route (not faithful, reported), enhanced formats.")
 TECHNIQUE = "Lean 4 theorems (string round trip on List Char, reachability invariants) + differential run of histories"
